@@ -31,8 +31,8 @@ type c03Case struct {
 	Fin      bool  `json:"fin_after_stream,omitempty"` // the remote half-closes right after the last byte
 	// Bulk, if set, replaces Msgs by a long run: Bulk[0] messages whose body lengths cycle through Bulk[1:]
 	// (-1 = KEEPALIVE); SlowHandler makes every handler call take 1 ms of virtual time.
-	Bulk        []int  `json:"bulk,omitempty"`
-	SlowHandler bool   `json:"slow_handler,omitempty"`
+	Bulk        []int `json:"bulk,omitempty"`
+	SlowHandler bool  `json:"slow_handler,omitempty"`
 	// LongHandler: the FIRST handler call takes that many milliseconds of virtual time while the
 	// negotiated hold time is HoldS seconds and the remote keeps sending a KEEPALIVE every second
 	// (a session that is never silent must not expire, whichever timer-channel semantics apply)
@@ -41,10 +41,10 @@ type c03Case struct {
 	Legacy      bool `json:"legacy_timers,omitempty"`
 	// Echo: the handler writes every UPDATE back with WriteUpdate (from inside the callback).
 	// LHold0 / RHold0: the peer is configured WithHoldTime(0) / the remote's OPEN proposes hold time 0.
-	Echo   bool `json:"echo,omitempty"`
-	LHold0 bool `json:"local_hold_0,omitempty"`
-	RHold0 bool `json:"remote_hold_0,omitempty"`
-	Note        string `json:"note,omitempty"`
+	Echo   bool   `json:"echo,omitempty"`
+	LHold0 bool   `json:"local_hold_0,omitempty"`
+	RHold0 bool   `json:"remote_hold_0,omitempty"`
+	Note   string `json:"note,omitempty"`
 }
 
 func c03Body(n int, tag byte) []byte {
